@@ -602,6 +602,8 @@ class Class(metaclass=mixin.MixinMeta):  # pylint: disable=undefined-variable
   def compute_mro(self):
     """Compute the class precedence list (mro) according to C3."""
     bases = abstract_utils.get_mro_bases(self.bases())
+    # `class C(A, A)` is a TypeError ("duplicate base class") at runtime.
+    mro.CheckDuplicateBases(bases, [[self], list(bases)])
     bases = [[self]] + [list(base.mro) for base in bases] + [list(bases)]
     base2cls = {}
     newbases = []
